@@ -43,6 +43,7 @@ type ownSweep struct {
 	names  map[string]int
 	counts map[string]*FuncReport
 	suffix string
+	backendName string
 }
 
 func (s *ownSweep) oblige(fn *ssa.Function, kind, detail string, pos token.Pos, ok bool, why string) {
@@ -54,7 +55,7 @@ func (s *ownSweep) oblige(fn *ssa.Function, kind, detail string, pos token.Pos, 
 	}
 	o := &Obligation{Name: name, Kind: kind, Props: []string{s.pc.ID}, Pos: pos, Where: s.p.relPos(pos), Src: why,
 		Reach: "true", Goal: "false", Func: fname, fv: s.fv, candidate: true, Block: -1}
-	o.Res = SolveResult{Solver: "ssa-dataflow", All: map[string]string{"ssa-dataflow": map[bool]string{true: "holds", false: "fails"}[ok]}, Output: why}
+	o.Res = SolveResult{Solver: s.backend(), All: map[string]string{s.backend(): map[bool]string{true: "holds", false: "fails"}[ok]}, Output: why}
 	fr := s.counts[fname]
 	if fr == nil {
 		fr = &FuncReport{Name: fname, Arith: "effect"}
@@ -818,4 +819,11 @@ func sweepOwnership(p *Prog, pc *PropConfig, tags string, r *checkResult) {
 	for _, n := range frs {
 		r.reports = append(r.reports, *s.counts[n])
 	}
+}
+
+func (s *ownSweep) backend() string {
+	if s.backendName != "" {
+		return s.backendName
+	}
+	return "ssa-dataflow"
 }
